@@ -2061,6 +2061,10 @@ func (e *executor) executeSetRow(ctx context.Context, index string, c *pql.Call,
 	}
 
 	result, err := e.mapReduce(ctx, index, shards, c, opt, mapFn, reduceFn)
+	if err != nil {
+		// there is no result to convert when a shard failed
+		return false, errors.Wrap(err, "mapreducing setrow")
+	}
 	return result.(bool), err
 }
 
